@@ -420,9 +420,9 @@ def check_branches(model, rep):
         raise AnalysisError(f'nutils_hash: dispatch branches {sorted(missing)} not found - re-anchor R17.5')
     # the type tag: t = type(data) AFTER numpy scalar normalisation; tag is t.__name__ + NUL
     tag = [s for s in f.body if isinstance(s, ast.Assign) and is_hashlib_ctor(s.value)]
-    ok = len(tag) == 1 and src(tag[0].value.args[0]).replace(' ', '') in ("t.__name__.encode()+b'\\x00'",)
+    ok = len(tag) == 1 and bool(tag[0].value.args) and 't.__name__' in src(tag[0].value.args[0]) and Typer(f).classify(tag[0].value.args[0])[-1] == DELIM
     rep.ob('R17.5', f.key, f.where(tag[0]) if tag else f.where(), ok, 'every value is tagged with its exact type name + NUL' if ok else
-           'the type tag `t.__name__.encode() + b"\\0"` changed', statement='type-tag')
+           'the hasher no longer starts with the NUL-terminated type name of the value', statement='type-tag')
     # R17.7: user-defined types (dataclass / __getnewargs__ / type objects) are identified by more than their bare name
     tagtxt = src(tag[0].value.args[0]) if tag else ''
     generic = [(test, body) for test, body in branches if 'dataclasses.is_dataclass(t)' in src(test) or '__getnewargs__' in src(test)]
@@ -600,7 +600,8 @@ def check_consumers(model, rep):
     b = model.func('evaluable:_BlockTreeBuilder.add_constant') if 'evaluable:_BlockTreeBuilder.add_constant' in model.functions else None
     if b is None:
         raise AnalysisError('evaluable._BlockTreeBuilder.add_constant not found')
-    ok = "types.nutils_hash(value).hex()" in src(b.node)
+    fmt = [c for c in calls_in(b.node) if method_name(c) == 'format' and isinstance(c.func, ast.Attribute) and isinstance(c.func.value, ast.Constant)]
+    ok = len(fmt) == 1 and len(fmt[0].args) == 1 and src(fmt[0].args[0]) == 'types.nutils_hash(value).hex()' 
     rep.ob('R17.6', b.key, b.where(), ok, 'constants in generated code are named by the full hex nutils hash of their value' if ok else
            'add_constant no longer names constants by the full nutils hash (a truncated or different key can bind a wrong constant)', statement='constant-name')
 
